@@ -145,6 +145,16 @@ pub fn spec_covers(x: u64, y: u64) -> bool {
     (x >> sh) == (y >> sh)
 }
 
+/// k-th child (k<4) of a canonical cell of resolution ≥ 1 (equivalence: `oracle_child_equiv`).
+pub fn spec_child(x: u64, k: u64) -> u64 {
+    let p = (x & M).trailing_zeros(); // marker bit position (56 at r=1, 57−2(r−1) at r≥2)
+    if p == 56 {
+        (x & !(1u64 << 56)) | (k << 56) | (1u64 << 55)
+    } else {
+        (x & !(1u64 << p)) | (k << (p - 1)) | (1u64 << (p - 2))
+    }
+}
+
 /// Sort stubs for `<[u64]>::sort_unstable` (generic, as Kani requires).
 pub fn sort_noop<T: Ord>(_v: &mut [T]) {}
 
